@@ -87,6 +87,11 @@ def run_c04(res, tier):
     front.run_cmd_table(res, ast)
     front.run_cell_rules(res, ast, rules=("WRAP-BY-TYPE", "CELL-CASTS", "CELL-CONSTS", "CELL-DELEGATE"))
     iolim.run_io_map(res, ast)
+    # "the tape is unbounded in both directions and starts all-zero": the in-place interpreter reaches the tape only through the checked
+    # Memory::read / write / mov, whose guards and growth arithmetic are anchored by C04 itself (src/runtime.rs:66, :131)
+    import rt, grow
+    rt.run_tape_rules(res, ast, rules=("BOUNDS-GUARD", "TAPE-PAIR"))
+    grow.run_grow(res, ast)
     import mirrules
     from mir import load_facts
     fx = load_facts()
@@ -212,12 +217,13 @@ META = {
     "C04": dict(
         technique="abstract evaluation of the in-place interpreter's command arms against the canonical command table; sibling agreement with the parser; cast-chain and constant checks of CellType; outcome-class evaluation of Context::input/output",
         claim="Decides the effect of the six non-bracket commands (moves by +-1, wrapping +-1, low-byte output, from_u8 input), the polarity of "
-              "both bracket tests, comment handling, wrap-around by type, and the end-of-input mapping (0, not failure). Necessary conditions of "
+              "both bracket tests, comment handling, wrap-around by type, the end-of-input mapping (0, not failure), and the checked tape access the "
+              "interpreter relies on for an unbounded zero tape (BOUNDS-GUARD, TAPE-PAIR, GROW-BOUNDS on Memory::read/write/make_accessible). Necessary conditions of "
               "C04; the forward bracket scan with its nesting counter and the loop stack are loop invariants and are not decided.",
         note=TRUST,
         explanation="E1: each byte arm of InplaceInterpreter::execute_in is evaluated over an abstract tape (current cell symbolic) and compared with "
                     "the canonical effect; the parser's arms must use the same signs/operands; CellType conversions and constants are checked structurally.",
-        not_decided=["correctness of the forward bracket scan (nesting counter arithmetic and its integer width) and of the loop stack", "behaviour of Memory growth (C09)"]),
+        not_decided=["correctness of the forward bracket scan (nesting counter arithmetic and its integer width) and of the loop stack", "content preservation of Memory growth under all histories (C09)"]),
     "C06": dict(
         technique="protocol rules (window entry, probe direction, checked/unchecked twins, mode map) on the syntax tree; abstract evaluation of the JIT's probe/extend template; visitor-completeness of the access-window computation; encoder width tables; polyhedral forward analysis of the growth arithmetic",
         claim="Decides the protocol that lets straight-line code touch [p+min, p+max] unchecked: every entry and re-establishment calls "
@@ -272,15 +278,18 @@ META = {
         explanation="E1 rules over bcint/ops.rs, basejit/codegen.rs, the Executable impls and src/bin/hpbf.rs.",
         not_decided=["that the pre-allocated region suffices for a given program's pointer excursion"]),
     "C11": dict(
-        technique="by-construction rules: visitor completeness against the enum definitions, offset provenance, pass ordering, index alignment of parallel vectors; evaluation of count_temps / record_branch_targets on representative programs; must-pass-through and value-provenance rules in the code generator",
+        technique="by-construction rules: visitor completeness against the enum definitions, offset provenance, pass ordering, index alignment of parallel vectors; evaluation of count_temps / record_branch_targets on representative programs, of range_extend over order classes and of emit_block's value-number table around a scripted nested block; must-pass-through and value-provenance rules in the code generator",
         claim="Decides two of the five clauses by construction: every temporary index is below Program.temps (TEMPS-BY-CONSTRUCTION) and every tape "
               "operand lies in the declared window, which contains 0 (WINDOW-BY-CONSTRUCTION); plus the index alignment of `live` with `insts` (LIVE-ZIP) "
               "and the kill sets of the two backward passes including the reset at branch targets in every iteration (PASS-KILL), and one necessary condition of the "
-              "live bitmaps: the loop-end live-range extension uses the saved start of the enclosing loop (LIVE-OUTER). Branch targets after no-op stripping, "
-              "read-before-write of temporaries and full adequacy of the live bitmaps are value-dependent and not decided.",
+              "live bitmaps: the loop-end live-range extension uses the saved start of the enclosing loop, and range_extend registers every value first met inside "
+              "a loop (LIVE-OUTER, evaluated over order classes); and one necessary condition of 'no temporary is read before it is written': the value-number "
+              "table forgets, around loops and maybe-skipped blocks, what the block may have changed or may not have defined (GVN-INVALIDATE, emit_block evaluated "
+              "around a scripted nested block). Branch targets after no-op stripping, load forwarding / register allocation and full adequacy of the live bitmaps "
+              "are value-dependent and not decided.",
         note=TRUST,
         explanation="E1 rules over src/bc.rs and src/ir.rs.",
-        not_decided=["branch offsets after strip_noops land on instruction boundaries", "no temporary is read before it is written on any path (GVN invalidation)",
+        not_decided=["branch offsets after strip_noops land on instruction boundaries", "no temporary is read before it is written on any path, beyond the invalidation discipline of the value-number table (load forwarding and replacement in allocate_temps)",
                      "live bitmaps cover every register temporary still needed (live-range computation; only the enclosing-loop threshold of the extension is decided: LIVE-OUTER)"]),
     "C12": dict(
         technique="pairing rule for the two parser stacks, position-provenance rule, dispatch-table exhaustiveness, who-parses-what rule, index-guard dominance rule for the in-place scan",
